@@ -651,6 +651,16 @@ func c09Eval(e *vEnv, c c09Case) (v c09Verdict, err error) {
 			}
 		}
 	}
+	// (I5) whatever is valid at quiescence was announced as New (or was valid initially)
+	for _, st := range run.Obs.State {
+		if strings.Contains(st, "valid=true") {
+			k := strings.Fields(st)[0]
+			if !announced[k] && !initiallyValid[k] {
+				v.key, v.msg = "valid-but-never-announced", "a registration is usable by connections but was never announced to the detector: "+st
+				return v, nil
+			}
+		}
+	}
 	// (I3) registrations and time-out records in bijection at quiescence
 	for _, st := range run.Obs.State {
 		if strings.Contains(st, "timeout=false") || strings.HasPrefix(st, "orphan-timeouts") {
